@@ -1452,11 +1452,13 @@ def run_life(scripts, race=False, watchdog=3000, cmd="life-run", procs=8, extra=
                 else:
                     # the process died: a panic on a search / timer goroutine cannot be recovered by the driver. When the dying
                     # goroutine was inside the engine this is the observation for the script that was running; the rest goes on
-                    err = open(j["ef"], errors="replace").read()[-8000:] if os.path.exists(j["ef"]) else ""
+                    err = open(j["ef"], errors="replace").read() if os.path.exists(j["ef"]) else ""
+                    at = max(err.rfind("\npanic: "), err.rfind("\nfatal error: "))      # the report of the LAST death, from its first line on
+                    err = err[at + 1:] if at >= 0 else err[-8000:]
                     first = err.split("goroutine ", 2)[1] if "goroutine " in err else ""
                     rest = [s_ for s_ in (json.loads(l) for l in open(j["pf"])) if s_["id"] not in {d["id"] for d in done}]
                     crashes[0] += 1
-                    if not rest or "/internal/" not in first or "WARNING: DATA RACE" in first or crashes[0] > 30:
+                    if not rest or "/internal/" not in first or "WARNING: DATA RACE" in first or crashes[0] > 300:
                         raise Inconclusive("%s died rc=%s: %s" % (cmd, rc, err[-300:]))
                     what = ([l for l in err.splitlines() if l.startswith(("panic:", "fatal error:"))] or ["?"])[0][:300]
                     frames = [l.strip() for l in first.splitlines() if "/internal/" in l][:4]
